@@ -365,9 +365,14 @@ def build_all(ctx):
         tab = regen_table(ctx)
         coq = ctx.coq()
         mexe = ctx.extract()
-        if table_still_ours(ctx, tab):
+        # a concurrent run (any check that shares coq/gen/EigSelect.v, from ANOTHER tree) may also have rebuilt a shared .vo
+        # between our make and our coqc: "Compiled library ... makes inconsistent assumptions" is that race, not a proof
+        # that stopped compiling -> rebuild
+        raced = (not coq.ok) and "inconsistent assumptions" in (coq.log or "")
+        if table_still_ours(ctx, tab) and not raced:
             return tab, coq, mexe
-        ctx.note("coq/gen/EigSelect.v was rewritten by a concurrent run from another tree; rebuilding (attempt %d)" % (attempt + 1))
+        ctx.note("coq/gen/EigSelect.v (or a .vo depending on it) was rewritten by a concurrent run from another tree; "
+                 "rebuilding (attempt %d)" % (attempt + 1))
     return tab, coq, mexe
 
 
